@@ -39,8 +39,8 @@ import (
 )
 
 var (
-	zvC32SysA = types.SystemID{0xaa, 0xaa, 0xaa, 0xaa, 0xaa, 0xaa}
-	zvC32SysB = types.SystemID{0xbb, 0xbb, 0xbb, 0xbb, 0xbb, 0xbb}
+	zvC32SysA     = types.SystemID{0xaa, 0xaa, 0xaa, 0xaa, 0xaa, 0xaa}
+	zvC32SysB     = types.SystemID{0xbb, 0xbb, 0xbb, 0xbb, 0xbb, 0xbb}
 	zvC32Circuits = []string{"eth0", "eth1"} // circuits with a neighbour
 )
 
@@ -295,15 +295,15 @@ type zvC32Viol struct {
 }
 
 type zvC32Result struct {
-	Canon   string
-	Labels  []string // case label of every event
-	Viols   []zvC32Viol
-	Status  vsched.Status
-	Diag    string
-	Own0    uint32
+	Canon                       string
+	Labels                      []string // case label of every event
+	Viols                       []zvC32Viol
+	Status                      vsched.Status
+	Diag                        string
+	Own0                        uint32
 	SentLSP, SentPSNP, SentCSNP int
-	OrigAfterReceived bool // an origination happened while a received own copy was outstanding
-	AgedOut           bool // the last event (a tick) removed LSP A
+	OrigAfterReceived           bool // an origination happened while a received own copy was outstanding
+	AgedOut                     bool // the last event (a tick) removed LSP A
 }
 
 var zvC32LSPTLVs = []packet.TLV{packet.NewAreaAddressesTLV([]types.AreaID{zvIsisArea})}
@@ -349,9 +349,7 @@ func zvC32Nbr(circuit string) zvNbr {
 // zvC32World builds the fixture: all links up, N1 and N2 Up, LSDB settled.
 func zvC32World() *zvIsisWorld {
 	w := zvIsisNew(false, zvIfEth0, zvIfEth1, zvIfEth2, zvIfLo)
-	for _, n := range []string{"eth0", "eth1", "eth2", "lo0"} {
-		w.link(n, true)
-	}
+	w.linksUp("eth0", "eth1", "eth2", "lo0")
 	w.bringUp(zvNbr1, 60)
 	w.bringUp(zvNbr2, 60)
 	vsched.Settle()
@@ -366,7 +364,7 @@ func zvC32Replay(hist []string, trace bool) (res zvC32Result) {
 	viol := func(sig map[string]string, f string, a ...any) {
 		res.Viols = append(res.Viols, zvC32Viol{sig, fmt.Sprintf(f, a...)})
 	}
-	x := vsched.Exec(vsched.Config{MaxSteps: 400000, Trace: trace, Sites: trace}, func() {
+	x := zvExec(vsched.Config{MaxSteps: 400000, Trace: trace, Sites: trace}, func() {
 		w := zvC32World()
 		l := w.srv.lsdbL2
 		// the reference adopts the state the set-up produced (the set-up is not part of the model)
@@ -672,7 +670,7 @@ func zvSetFlag(m map[string]bool, c string, v bool) {
 // aging with all real ticker routines running; the own LSP must be stored with
 // a positive remaining lifetime at every second.
 func zvC32Aging(root []string, secs int) (refreshes int, v *zvC32Viol, st vsched.Status, diag string) {
-	x := vsched.Exec(vsched.Config{MaxSteps: 50000000}, func() {
+	x := zvExec(vsched.Config{MaxSteps: 50000000}, func() {
 		w := zvC32World()
 		own0 := w.ownLSP().SequenceNumber
 		for _, ev := range root {
@@ -706,17 +704,18 @@ var zvC32Required = []string{"lsp-newer", "lsp-same", "lsp-older", "lsp-own-newe
 func TestVerifC32(t *testing.T) {
 	r := vh.Start(t, "C32")
 	defer r.Finish()
-	dFull, dUni := 3, 4
+	dFull, dA, dOwn := 3, 3, 4
 	if r.Thorough() {
-		dFull, dUni = 4, 6
+		dFull, dA, dOwn = 4, 5, 6
 	}
 	full := zvC32Alphabet("full")
 	r.Rule(fmt.Sprintf("explicit-state BFS over histories of received LSPs/CSNPs/PSNPs (LSP IDs A, B, own; sequence numbers 1..3 resp. own-1/own/own+2; lifetimes 2/1200) on two circuits, aging ticks, own-LSP updates and LSP/PSNP/CSNP send rounds: "+
-		"full alphabet (%d events) to depth %d, sub-alphabets 'A' (%d events, foreign LSP only) and 'own' (%d events, own LSP only) to depth %d; each history replayed on a fresh real Server (bound 0) in lock-step with the ISO 10589 reference; "+
-		"plus a 3600 s linear aging run from 2 roots; non-trivial = distinct canonical states", len(full), dFull, len(zvC32Alphabet("A")), len(zvC32Alphabet("own")), dUni))
+		"full alphabet (%d events) to depth %d, sub-alphabets 'A' (%d events, foreign LSP only) to depth %d and 'own' (%d events, own LSP only) to depth %d; each history replayed on a fresh real Server (bound 0) in lock-step with the ISO 10589 reference; "+
+		"plus a 3600 s linear aging run from 2 roots; non-trivial = distinct canonical states", len(full), dFull, len(zvC32Alphabet("A")), dA, len(zvC32Alphabet("own")), dOwn))
 	r.Require(zvC32Required...)
 	r.Extra("depth_full", dFull)
-	r.Extra("depth_sub", dUni)
+	r.Extra("depth_sub_A", dA)
+	r.Extra("depth_sub_own", dOwn)
 
 	report := func(uni string, hist []string, res zvC32Result) {
 		c := zvC32Case{uni, hist}
@@ -786,10 +785,10 @@ func TestVerifC32(t *testing.T) {
 	}
 	directed := [][]string{
 		{"lsp:eth0:A:2:1200", "lsp:eth1:A:2:1200", "lsp:eth1:A:1:1200", "send-lsp"}, // newer, same, older
-		{"lsp:eth0:A:2:1200", "psnp:eth1:1", "psnp:eth1:2"},                        // PSNP older, equal
+		{"lsp:eth0:A:2:1200", "psnp:eth1:1", "psnp:eth1:2"},                         // PSNP older, equal
 		{"csnp:eth0:1:1", "send-psnp", "send-csnp"},
-		{"lsp:eth0:A:1:2", "tick", "tick"},          // aged out
-		{"lsp:eth0:own:+2:1200", "own-update"},      // own LSP overtakes
+		{"lsp:eth0:A:1:2", "tick", "tick"},     // aged out
+		{"lsp:eth0:own:+2:1200", "own-update"}, // own LSP overtakes
 		{"lsp:eth0:A:3:1200", "send-lsp", "send-psnp"},
 	}
 	idx := 0
@@ -804,7 +803,7 @@ func TestVerifC32(t *testing.T) {
 	for _, u := range []struct {
 		uni   string
 		depth int
-	}{{"full", dFull}, {"A", dUni}, {"own", dUni}} {
+	}{{"full", dFull}, {"A", dA}, {"own", dOwn}} {
 		for _, e1 := range zvC32Alphabet(u.uni) {
 			idx++
 			if !r.Mine(idx) {
